@@ -1,12 +1,12 @@
 SPECIFICATION Spec
-CONSTANTS Times <- McTimesT
- RootTimes <- McRootT
- ExpChoices <- McExpT
- Menu <- McMenu
- QMenu <- McQMenu
+CONSTANTS Times <- McTimesC
+ RootTimes <- McRootQ
+ ExpChoices <- McExpQ
+ Menu <- McMenuC
+ QMenu <- McQMenuC
  MaxBlocks = 3
  HashCoversSig = FALSE
- Encs = {"c"}
+ Encs = {"c", "h", "x"}
  CarrierKeyed = FALSE
  PruneLife = 1800
  ReloadLife = 1800
